@@ -36,6 +36,14 @@ theorem fact_volume_alternative_skipped : volumeAlternativeFailure = ["if err !=
 /-- `isDaemonPodCompatibleWithNode` checks the daemon pod's requirements against the node's labels with NO option (no
     undefined key is allowed, well-known or not): `dsCountedWith` -/
 theorem fact_daemon_node_compatible : daemonNodeCompatibleArgs = ["scheduling.NewStrictPodRequirements(p)"] := by decide
+/-- `MarkForDeletion` has no `return`: an id without state node is skipped, the loop goes on (`markStep`) -/
+theorem fact_mark_no_early_return : markForDeletionReturns = [] ∧ unmarkForDeletionReturns = [] := by decide
+/-- `VolumeUsage.ExceedsLimits` counts the union of the volumes in use and the pod's (`exceedsLimits`) -/
+theorem fact_exceeds_limits_union : exceedsLimitsCalls = ["Union"] := by decide
+/-- `resolveCustomLabelsFromRequirements` gives the NodeClaim a concrete label for EVERY user-defined requirement key that
+    `Any()` yields a value for (not only for single-valued `In`) -/
+theorem fact_custom_labels_resolved : resolveCustomLabelsConds =
+    ["v1.WellKnownLabels.Has(key) || v1.RestrictedLabels.Has(key) || schedulingSimulationKeys.Has(key)", "value != \"\""] := by decide
 /-- the existing nodes of a pass are built from `StateNode.Taints()` and the daemonsets compatible with the node -/
 theorem fact_existing_nodes : existingNodeCalls = ["Taints", "getCompatibleDaemonPods", "NewExistingNode"] := by decide
 
@@ -323,6 +331,107 @@ example : existingCanAddV exZ3 podV [zoneIn "z1", zoneIn "z3"] = true ∧ existi
     volAltOK exZ3 podV (zoneIn "z1") = false := by decide
 example : (volumeAlts [[zoneIn "z1", zoneIn "z3"], [], [zoneIn "z3"]]).map (·.map (·.vals)) = [[["z3"], ["z3"]]] ∧
     (volumeAlts [[], []]).length = 0 := by decide
+
+/-! ## 1c. CSI attach limits and the deletion mark
+
+`VolumeUsage.ExceedsLimits` compares the UNION of the claims in use on the node with the pod's claims against the limit
+(`exceedsLimits`): a pod that re-mounts what is attached already never exceeds it.  `Cluster.MarkForDeletion` handles every
+provider id of the call (`markStep`): none of the state nodes it names is left in `Active()`. -/
+
+/-- inserting claims that are already in the set leaves it unchanged -/
+theorem C04_union_of_attached : ∀ (podVols used : List String), (∀ v ∈ podVols, v ∈ used) → volUnion used podVols = used := by
+  intro podVols
+  induction podVols with
+  | nil => intro used _; rfl
+  | cons v rest ih =>
+    intro used h
+    have hv : used.contains v = true := by simpa using h v (by simp)
+    simp only [volUnion, List.foldl_cons, hv, if_true]
+    exact ih used (fun x hx => h x (by simp [hx]))
+
+/-- **C04_remount_never_exceeds** — a pod that only mounts claims already in use on the node never runs into the node's
+    attach limit, as long as the node itself is within it. -/
+theorem C04_remount_never_exceeds (l : Nat) (used podVols : List String)
+    (hsub : ∀ v ∈ podVols, v ∈ used) (hin : used.length ≤ l) : exceedsLimits (some l) used podVols = false := by
+  simp only [exceedsLimits, C04_union_of_attached podVols used hsub]
+  simp; omega
+
+theorem C04_no_limit_never_exceeds (used podVols : List String) : exceedsLimits none used podVols = false := rfl
+
+example : exceedsLimits (some 2) ["default/a", "default/b"] ["default/a"] = false ∧
+    exceedsLimits (some 2) ["default/a", "default/b"] ["default/a", "default/c"] = true ∧
+    exceedsLimits (some 2) ["default/a"] ["default/c", "default/c"] = false := by decide
+
+/-! ### the deletion mark -/
+
+theorem C04_setMark_sets (s : MarkSt) (x : String) : ∀ n ∈ setMark true s x, n.id = x → n.marked = true := by
+  intro n hn hid
+  simp only [setMark, List.mem_map] at hn
+  obtain ⟨m, _, hm⟩ := hn
+  by_cases h : (m.id == x) = true
+  · simp only [h, if_true] at hm; subst hm; rfl
+  · simp only [h] at hm
+    subst hm
+    exact absurd (by simpa using hid) h
+
+theorem C04_setMark_mono (s : MarkSt) (x id : String) (h : ∀ n ∈ s, n.id = id → n.marked = true) :
+    ∀ n ∈ setMark true s x, n.id = id → n.marked = true := by
+  intro n hn hid
+  simp only [setMark, List.mem_map] at hn
+  obtain ⟨m, hm, he⟩ := hn
+  by_cases hx : (m.id == x) = true
+  · simp only [hx, if_true] at he; subst he; rfl
+  · simp only [hx] at he
+    subst he
+    exact h _ hm hid
+
+theorem C04_foldMark_mono : ∀ (ids : List String) (s : MarkSt) (id : String), (∀ n ∈ s, n.id = id → n.marked = true) →
+    ∀ n ∈ ids.foldl (setMark true) s, n.id = id → n.marked = true := by
+  intro ids
+  induction ids with
+  | nil => intro s id h; exact h
+  | cons x rest ih => intro s id h; exact ih _ id (C04_setMark_mono s x id h)
+
+/-- **C04_mark_covers_every_id** — ONE `MarkForDeletion` call marks every state node it names, wherever the id stands in the
+    list and whatever else the list holds (unknown ids, duplicates). -/
+theorem C04_mark_covers_every_id : ∀ (ids : List String) (s : MarkSt) (id : String), id ∈ ids →
+    ∀ n ∈ markStep s (.mark ids), n.id = id → n.marked = true := by
+  intro ids
+  induction ids with
+  | nil => intro s id h; cases h
+  | cons x rest ih =>
+    intro s id h
+    simp only [markStep, List.foldl_cons]
+    rcases List.mem_cons.mp h with hx | hr
+    · subst hx; exact C04_foldMark_mono rest _ id (C04_setMark_sets s id)
+    · exact ih (setMark true s x) id hr
+
+/-- … so none of them is counted as capacity by the next pass (`StateNodes.Active`) -/
+theorem C04_marked_ids_not_active (ids : List String) (s : MarkSt) (id : String) (h : id ∈ ids) :
+    id ∉ (markStep s (.mark ids)).active := by
+  intro hin
+  simp only [MarkSt.active, List.mem_map, List.mem_filter] at hin
+  obtain ⟨n, ⟨hn, hm⟩, hid⟩ := hin
+  have := C04_mark_covers_every_id ids s id h n hn hid
+  simp [this] at hm
+
+/-- the ids a call names that have no state node change nothing: the state nodes stay the same -/
+theorem C04_mark_keeps_nodes (ids : List String) (s : MarkSt) : (markStep s (.mark ids)).map (·.id) = s.map (·.id) := by
+  simp only [markStep]
+  induction ids generalizing s with
+  | nil => rfl
+  | cons x rest ih =>
+    simp only [List.foldl_cons]
+    rw [ih]
+    simp only [setMark, List.map_map]
+    apply List.map_congr_left
+    intro n _
+    simp only [Function.comp]
+    split <;> rfl
+
+example : (([.seeNode "b", .mark ["a", "x", "b"]] : List MarkEv).foldl markStep []).deleting = ["b"] ∧
+    (([.seeNode "a", .seeClaim "a", .seeNode "b", .mark ["a"], .delNode "a", .seeNode "a", .delNode "b"] : List MarkEv).foldl markStep []).deleting = ["a"] := by decide
+
 
 /-! ## 2. The in-flight view: what the scheduler sees of a launched NodeClaim at each lifecycle stage -/
 
